@@ -1,4 +1,5 @@
 import Properties.C08
+import Properties.Full
 #print axioms Hive.C08.runInv
 #print axioms Hive.C08.reachable
 #print axioms Hive.C08.ops
@@ -11,3 +12,4 @@ import Properties.C08
 #print axioms Hive.C08.reachable_station_search
 #print axioms Hive.C08.reachable_base_search
 #print axioms Hive.C08.ops_lookup
+#print axioms Hive.Full.C08
